@@ -440,7 +440,7 @@ def main():
         vec = [(C, B) for C in (1, 2, 3, 4) for B in range(1, 2 * C + 1)] + [(5, 3), (6, 4)]
     else:
         scal = [(1, 1), (2, 2), (3, 1), (3, 2), (4, 3), (4, 4)]
-        vec = [(2, 1), (2, 3), (3, 2), (3, 4), (4, 5)]
+        vec = [(1, 1), (1, 2), (2, 1), (2, 3), (3, 2), (3, 4), (4, 5)]       # capacity 1: every per-transition scalar leaf has the shape of the per-environment counter
     ck.bound(capacity=Cs, envs=[1, 2], sample_configs_scalar=[list(x) for x in scal], sample_configs_E2=[list(x) for x in vec],
              note="capacity C, number of environments E and batch size B are static (enumerated); the position(s), every buffer cell, the new row, the key and the draw are symbolic; "
                   "the number of insertions n >= 0 is an unbounded mathematical integer; the buffer's counter is linked to it only by what the code reads off it, and its int32 arithmetic is modelled with wrapping in the `machine` obligations")
